@@ -619,6 +619,29 @@ def check_template(ctx):
                 "inserted into hooked modules would raise KeyError / use another checker", path=fl.witness(g.exit, bad[0]), construct="Typechecker.__init__: path without lookup[self.hash]")
     else:
         ctx.ok("C10.6", init_f.qualname, "every non-raising path sets self.hash and then stores Typechecker.lookup[self.hash]")
+    # ... and the entry stays: the decorator text `...Typechecker.lookup['<hash>']` is evaluated whenever a `def` statement of an instrumented
+    # module runs -- for nested functions and classes that is at *call* time, possibly long after the hook was uninstalled.  Removing entries
+    # (in uninstall, in a clean-up, through a weak table) turns a well-typed call into a KeyError.
+    removed = []
+    for f2 in m.all_functions(include_typeguard=False):
+        for x in walk_scope(f2.node):
+            tgt = None
+            if isinstance(x, ast.Call) and isinstance(x.func, ast.Attribute) and x.func.attr in ("pop", "popitem", "clear") and norm(x.func.value).endswith(".lookup"):
+                tgt = x
+            if isinstance(x, ast.Delete) and any(isinstance(t, ast.Subscript) and norm(t.value).endswith(".lookup") for t in x.targets):
+                tgt = x
+            if isinstance(x, ast.Assign) and any(isinstance(t, ast.Attribute) and t.attr == "lookup" for t in x.targets) and f2.name != "__init__":
+                tgt = x
+            if tgt is not None:
+                removed.append((f2, tgt))
+    look_def = tc.assigns.get("lookup")
+    if removed:
+        for f2, x in removed:
+            ctx.bad("C10.6", f2, x, f"`{short(x, 60)}` removes entries from Typechecker.lookup: the decorators inserted into instrumented modules look their typechecker up there each "
+                    "time a `def` statement runs (nested functions: at call time, also after uninstall), so a well-typed call of instrumented code would raise KeyError",
+                    construct="Typechecker.lookup entry removed")
+    else:
+        ctx.ok("C10.6", tc.qualname, "nothing removes entries from Typechecker.lookup (they are needed whenever an instrumented def statement runs)")
 
 
 # ------------------------------------------------------------------------ C10.7
